@@ -123,6 +123,10 @@ func newCompiler(
 		for i := range opts.Constants {
 			switch opts.Constants[i].(type) {
 			case Int, Uint, String, Bool, Float, Char, *UndefinedType:
+				if f, ok := opts.Constants[i].(Float); ok && f == 0 && math.Signbit(float64(f)) {
+					// -0.0 and 0.0 are equal as map keys: never serve one for the other
+					continue
+				}
 				constsCache[opts.Constants[i]] = i
 			}
 		}
